@@ -12,7 +12,18 @@
 // resp. AFTER its return, so "version k was current at some instant between the request's invocation and return"
 // is decidable from the numbers.  The merged trace is judged by spec/RuleSwitch_Trace.tla.
 //
-// usage: c15 <trace.ndjson> <seed> <versions> <traffic goroutines>
+// FIRST USE (second phase, after the free-running phase has quiesced; the clock is frozen from here on so that every
+// request of a round falls into one statistic window).  Every round takes a resource name that has never been seen
+// before and releases, from a spin barrier, several first api.Entry calls of it together with 0..2 rule loads for that
+// very resource (flow: LoadRules / LoadRulesOfResource, which bind the rule to the resource's statistic node;
+// isolation; a flow rule of another resource that refers to the fresh one).  When they have all returned the driver
+// records what is in force (Get*RulesOfResource) and then, sequentially, probes it: requests until the threshold is
+// crossed (each: decision + triggering threshold), the statistics getters of the resource's node, optionally a
+// sequential reload with another threshold and more probes, then Exit of everything held and the getters again.
+// spec/RuleSwitch_Trace.tla computes the expected decision of every probe and every getter value (invariants
+// Enforced / StatAgrees of spec/RuleSwitch.tla).
+//
+// usage: c15 <trace.ndjson> <seed> <versions> <traffic goroutines> [<first-use rounds>]
 package main
 
 import (
@@ -81,6 +92,10 @@ func main() {
 	seed, _ := strconv.Atoi(os.Args[2])
 	nver, _ := strconv.Atoi(os.Args[3])
 	ntraffic, _ := strconv.Atoi(os.Args[4])
+	nfirst := 0
+	if len(os.Args) > 5 {
+		nfirst, _ = strconv.Atoi(os.Args[5])
+	}
 	hx.InitSentinel()
 	go func() { // watchdog: an API call that never returns is a deadlock
 		time.Sleep(90 * time.Second)
@@ -301,6 +316,12 @@ func main() {
 	atomic.StoreInt32(&stop, 1)
 	wg.Wait()
 
+	var fuRecs []rec
+	func() {
+		defer guard("first use")
+		fuRecs = firstUse(seed, nfirst)
+	}()
+
 	tr := hx.NewTrace(os.Args[1])
 	tr.Emit(rec{"op": "new", "tr": seed, "nver": nver, "const": constMarker})
 	for _, l := range loads {
@@ -340,9 +361,253 @@ func main() {
 			kept++
 		}
 	}
-	tr.Emit(rec{"op": "end", "panics": int(atomic.LoadInt32(&panics)), "requests": len(reqs), "racing": racing, "loads": len(loads)})
+	for _, r := range fuRecs {
+		tr.Emit(r)
+	}
+	tr.Emit(rec{"op": "end", "panics": int(atomic.LoadInt32(&panics)), "requests": len(reqs), "racing": racing, "loads": len(loads), "rounds": nfirst})
 	tr.Close()
 	if atomic.LoadInt32(&panics) > 0 {
 		os.Exit(5)
 	}
+}
+
+// ---- first use ---------------------------------------------------------------------------------------
+
+
+func markerOf(b *base.BlockError) int {
+	switch x := b.TriggeredRule().(type) {
+	case *flow.Rule:
+		return int(x.Threshold)
+	case *isolation.Rule:
+		return int(x.Threshold)
+	}
+	return -3
+}
+
+// inForce returns the threshold of the single rule in force for target (-1: none, -2: more than one)
+func inForce(kind, target string) int {
+	if kind == "iso" {
+		rs := isolation.GetRulesOfResource(target)
+		if len(rs) == 0 {
+			return -1
+		} else if len(rs) > 1 {
+			return -2
+		}
+		return int(rs[0].Threshold)
+	}
+	rs := flow.GetRulesOfResource(target)
+	if len(rs) == 0 {
+		return -1
+	} else if len(rs) > 1 {
+		return -2
+	}
+	return int(rs[0].Threshold)
+}
+
+func loadOne(kind, res, target string, thr int, interval uint32, whole bool) {
+	switch kind {
+	case "flow", "assoc":
+		r := &flow.Rule{Resource: target, TokenCalculateStrategy: flow.Direct, ControlBehavior: flow.Reject, Threshold: float64(thr), StatIntervalInMs: interval}
+		if kind == "assoc" {
+			r.RelationStrategy = flow.AssociatedResource
+			r.RefResource = res
+		}
+		if whole {
+			_, _ = flow.LoadRules([]*flow.Rule{r})
+		} else {
+			_, _ = flow.LoadRulesOfResource(target, []*flow.Rule{r})
+		}
+	case "iso":
+		r := &isolation.Rule{Resource: target, MetricType: isolation.Concurrency, Threshold: uint32(thr)}
+		if whole {
+			_, _ = isolation.LoadRules([]*isolation.Rule{r})
+		} else {
+			_, _ = isolation.LoadRulesOfResource(target, []*isolation.Rule{r})
+		}
+	}
+}
+
+func statRec(res string) rec {
+	n := stat.GetResourceNode(res)
+	if n == nil {
+		return rec{"op": "stat", "node": false, "pass": 0, "block": 0, "conc": 0, "complete": 0}
+	}
+	return rec{"op": "stat", "node": true, "pass": int(n.GetSum(base.MetricEventPass)), "block": int(n.GetSum(base.MetricEventBlock)),
+		"conc": int(n.CurrentConcurrency()), "complete": int(n.GetSum(base.MetricEventComplete))}
+}
+
+func firstUse(seed, rounds int) []rec {
+	var out []rec
+	if rounds <= 0 {
+		return out
+	}
+	vc := hx.NewVClock(hx.BaseMs(10000) * 1e6) // frozen: every request of a round falls into one window
+	vc.Install()
+	_ = flow.ClearRules()
+	_ = isolation.ClearRules()
+	rng := rand.New(rand.NewSource(int64(seed)*7919 + 5))
+	kinds := []string{"flow", "flow", "iso", "iso", "assoc"}
+	intervals := []uint32{1000, 1000, 2000, 5000}
+	for round := 0; round < rounds; round++ {
+		kind := kinds[rng.Intn(len(kinds))]
+		res := fmt.Sprintf("u%d_%d", seed, round) // never seen before
+		target := res
+		if kind == "assoc" {
+			target = res + "_a"
+		}
+		ne := 2 + rng.Intn(4)
+		nl := rng.Intn(3)
+		if kind == "assoc" {
+			nl = 1 + rng.Intn(2)
+		}
+		thr0 := ne - 1 + rng.Intn(4)
+		interval := intervals[rng.Intn(len(intervals))]
+		pre := false
+		loaded := []int{}
+		if kind == "iso" && nl == 0 && rng.Intn(2) == 0 { // isolation does not create the node: a rule loaded beforehand keeps the resource fresh
+			pre = true
+			loadOne(kind, res, target, thr0, interval, false)
+			loaded = append(loaded, thr0)
+		}
+		n := ne + nl
+		var arrived int32
+		barrier := func() {
+			atomic.AddInt32(&arrived, 1)
+			for i := 0; atomic.LoadInt32(&arrived) < int32(n); i++ {
+				if i > 20000 {
+					runtime.Gosched()
+				}
+			}
+		}
+		type outcome struct {
+			e *base.SentinelEntry
+			b *base.BlockError
+		}
+		results := make([]outcome, ne)
+		var panicked int32
+		var fw sync.WaitGroup
+		roles := make([]func(), 0, n)
+		for j := 0; j < ne; j++ {
+			j := j
+			roles = append(roles, func() {
+				barrier()
+				e, b := api.Entry(res)
+				results[j] = outcome{e, b}
+			})
+		}
+		for j := 0; j < nl; j++ {
+			t, whole := thr0+j, rng.Intn(3) == 0
+			loaded = append(loaded, t)
+			roles = append(roles, func() {
+				barrier()
+				loadOne(kind, res, target, t, interval, whole)
+			})
+		}
+		rng.Shuffle(len(roles), func(a, b int) { roles[a], roles[b] = roles[b], roles[a] })
+		for _, f := range roles {
+			f := f
+			fw.Add(1)
+			go func() {
+				defer fw.Done()
+				defer func() {
+					if r := recover(); r != nil {
+						atomic.AddInt32(&panicked, 1)
+						atomic.StoreInt32(&arrived, int32(n)) // do not leave the others spinning
+						fmt.Fprintf(os.Stderr, "PANIC in first use: %v\n", r)
+					}
+				}()
+				f()
+			}()
+		}
+		fw.Wait()
+		if panicked > 0 {
+			panic("first-use round panicked")
+		}
+		// ---- quiescent: record what happened and what is in force, then probe sequentially -------------
+		var onRes, onA []*base.SentinelEntry
+		rpass, rblock := 0, 0
+		rmarks := []int{}
+		for _, o := range results {
+			if o.b == nil {
+				rpass++
+				onRes = append(onRes, o.e)
+			} else {
+				rblock++
+				rmarks = append(rmarks, markerOf(o.b))
+			}
+		}
+		thr := inForce(kind, target)
+		out = append(out, rec{"op": "fu", "round": round, "kind": kind, "res": res, "ne": ne, "pre": pre, "interval": int(interval), "loaded": loaded, "thr": thr,
+			"rpass": rpass, "rblock": rblock, "rmarks": rmarks})
+		adm, inflight := rpass, rpass
+		probe := func(on string) {
+			name := res
+			if on == "a" {
+				name = target
+			}
+			e, b := api.Entry(name)
+			r := rec{"op": "probe", "on": on, "pass": b == nil, "marker": -1}
+			if b != nil {
+				r["marker"] = markerOf(b)
+			} else if on == "a" {
+				onA = append(onA, e)
+			} else {
+				onRes = append(onRes, e)
+				adm++
+				inflight++
+			}
+			out = append(out, r)
+		}
+		probeAll := func(t int) {
+			switch kind {
+			case "flow":
+				for i, np := 0, clamp(t-adm+2, 2, 8); i < np; i++ {
+					probe("res")
+				}
+			case "iso":
+				for i, np := 0, clamp(t-inflight+2, 2, 8); i < np; i++ {
+					probe("res")
+				}
+			case "assoc": // requests of the fresh resource are never limited; requests of the referring one are, by its count
+				for i, np := 0, clamp(t-adm+2, 2, 6); i < np; i++ {
+					probe("a")
+					probe("res")
+				}
+				probe("a")
+			}
+		}
+		probeAll(thr)
+		out = append(out, statRec(res))
+		if thr > 0 && rng.Intn(3) == 0 { // a sequential reload reuses what the first load bound
+			want := thr + 2
+			loadOne(kind, res, target, want, interval, rng.Intn(3) == 0)
+			thr = inForce(kind, target)
+			out = append(out, rec{"op": "reload", "want": want, "thr": thr})
+			probeAll(thr)
+			out = append(out, statRec(res))
+		}
+		for _, e := range onRes {
+			e.Exit()
+		}
+		for _, e := range onA {
+			e.Exit()
+		}
+		out = append(out, rec{"op": "release"}, statRec(res))
+		if kind == "iso" {
+			_ = isolation.ClearRulesOfResource(target)
+		} else {
+			_ = flow.ClearRulesOfResource(target)
+		}
+	}
+	return out
+}
+
+func clamp(x, lo, hi int) int {
+	if x < lo {
+		return lo
+	}
+	if x > hi {
+		return hi
+	}
+	return x
 }
